@@ -16,10 +16,11 @@ BOUNDS = {
               "response": "status solver int 100..599, 0-2 chunks of 0-2 solver bytes, Content-Length present/absent, HTTP/1.0|1.1, GET/HEAD"},
     "thorough": {"chunk_header": "<= 4 characters", "payload": "<= 9 bytes"},
 }
-STUBS = ["rfile: readline()/read(n) over the wire buffer", "send_response / send_header / end_headers / wfile: recorders", "make_environ: constant environ",
+STUBS = ["make_environ target: handler built with object.__new__, headers/server/connection are plain recording fakes; urllib.parse.urlsplit's lru_cache wrapper bypassed (its pure-Python body and unquote are interpreted from the stdlib source)",
+         "rfile: readline()/read(n) over the wire buffer", "send_response / send_header / end_headers / wfile: recorders", "make_environ: constant environ",
          "selectors.DefaultSelector: nothing pending"]
 ASSUMPTIONS = ["the wire after the solver chunk header is a fixed well-formed continuation"]
-OUTSIDE = ["make_environ (stdlib http.server / URL parsing)", "real sockets", "trailers and chunk extensions"]
+OUTSIDE = ["http.server.parse_request (request-line splitting, header parsing: stdlib)", "percent escapes >= 0x80 and non-ASCII request targets", "TLS peer certificates", "real sockets", "trailers and chunk extensions"]
 
 PAYLOAD = b"abcdefghi"
 
@@ -284,6 +285,131 @@ def body_run_wsgi(I, X, method="GET", version="HTTP/1.1", lens=(1, 2), with_cl=F
     return ok, {"wire": wire, "headers": sent["headers"], "status": sent["status"]}
 
 
+class FakeHeaders:
+    """the part of http.client.HTTPMessage that make_environ uses"""
+
+    def __init__(self, pairs):
+        self.pairs = list(pairs)
+
+    def items(self):
+        return list(self.pairs)
+
+    def get(self, name, default=None):
+        for k, v in self.pairs:
+            if k.lower() == name.lower():
+                return v
+        return default
+
+
+class FakeConn:
+    pass
+
+
+HEADER_SETS = [
+    [("Host", "example.org"), ("X-A", "1"), ("X-A", "2"), ("X_Under", "u"), ("Content-Type", "text/plain"), ("Content-Length", "3")],
+    [("Host", "example.org"), ("Transfer-Encoding", "chunked"), ("x-b", "v")],
+]
+
+
+def body_make_environ(I, X, n=3, skel="/{}", method="GET", hs=0, sym_header=False):
+    """environ construction from the request line and headers: the application sees the
+    method, the percent-decoded path, the raw query string and the headers the client sent"""
+    import werkzeug.serving as srv
+    from harness.c03 import punquote
+
+    core = X.str("target", n, minlen=n, maxcp=0x7E)
+    # a request target cannot contain whitespace / controls (request-line syntax); '#' is never
+    # sent by clients (fragment); http.server.parse_request collapses a leading '//' before
+    # make_environ runs, so the solver text does not start with '/'
+    X.assume(pall_in(core, [(0x21, 0x22), (0x24, 0x7E)]))
+    if skel == "/{}":
+        X.assume(pnot(peq(core[:1], "/")))
+    if skel.startswith("http://"):
+        # a malformed authority ('[' / ']' outside an IPv6 literal) makes urlsplit raise: the
+        # property does not say what the server owes such a request
+        X.assume(pnone_in(core, [0x5B, 0x5D]))
+    pre, _, post = skel.partition("{}")
+    target = pconcat(pre, core, post)
+    # percent escapes of bytes >= 0x80 (UTF-8 sequences) are outside the claim
+    HI = [(0x38, 0x39), (0x41, 0x46), (0x61, 0x66)]
+    for i in range(n - 1):
+        X.assume(pnot(pand(peq(core[i:i + 1], "%"), pall_in(core[i + 1:i + 2], HI))))
+    if pre.endswith("%") and n:
+        X.assume(pnot(pall_in(core[:1], HI)))
+    if sym_header:
+        hval = X.str("hval", 2, minlen=0, maxcp=0x7E)
+        X.assume(pall_in(hval, [(0x20, 0x7E)]))
+    else:
+        hval = "v"
+    pairs = [(k, v) for k, v in HEADER_SETS[hs]] + [("X-Sym", hval)]
+
+    h = object.__new__(srv.WSGIRequestHandler)
+    h.path = target
+    h.command = method
+    h.request_version = "HTTP/1.1"
+    h.client_address = ("192.0.2.7", 4711)
+    h.rfile = RFile(b"")
+    h.connection = FakeConn()
+    h.headers = FakeHeaders(pairs)
+    fs = FakeServer(None)
+    fs.ssl_context = None
+    fs.multithread = fs.multiprocess = False
+    fs.server_address = ("srv", 8080)
+    fs._server_version = "Werkzeug/x"
+    h.server = fs
+    env = I.call(h.make_environ, ())
+    # ---------------------------------------------------------------- reference
+    absolute = skel.startswith("http://")
+    rest = target
+    host = None
+    if absolute:
+        rest = target[len("http://"):]
+        i = rest.find("/")
+        j = rest.find("?")
+        cut = plen(rest)
+        if i != -1:
+            cut = i
+        if j != -1 and j < cut:
+            cut = j
+        host, rest = rest[:cut], rest[cut:]
+    q = rest.find("?")
+    path, query = (rest, "") if q == -1 else (rest[:q], rest[q + 1:])
+    ok = pand(peq(env["REQUEST_METHOD"], method), peq(env["PATH_INFO"], punquote(path)), peq(env["QUERY_STRING"], query),
+              peq(env["REQUEST_URI"], target), env["SERVER_PROTOCOL"] == "HTTP/1.1", env["REMOTE_ADDR"] == "192.0.2.7",
+              env["SERVER_NAME"] == "srv", env["SERVER_PORT"] == "8080", env["wsgi.url_scheme"] == "http", env["SCRIPT_NAME"] == "")
+    want = {}
+    for k, v in pairs:
+        if "_" in k:
+            continue
+        key = k.upper().replace("-", "_")
+        if key not in ("CONTENT_TYPE", "CONTENT_LENGTH"):
+            key = "HTTP_" + key
+            if key in want:
+                v = pconcat(want[key], ",", v)
+        want[key] = v
+    if host is not None:
+        want["HTTP_HOST"] = host
+    got_h = {k: v for k, v in env.items() if k.startswith("HTTP_") or k in ("CONTENT_TYPE", "CONTENT_LENGTH")}
+    ok = pand(ok, sorted(got_h) == sorted(want))
+    if sorted(got_h) == sorted(want):
+        for k in want:
+            ok = pand(ok, peq(got_h[k], want[k]))
+    chunked = hs == 1
+    ok = pand(ok, bool(env.get("wsgi.input_terminated", False)) == chunked, isinstance(env["wsgi.input"], srv.DechunkedInput) == chunked)
+    return ok, {"PATH_INFO": env["PATH_INFO"], "QUERY_STRING": env["QUERY_STRING"], "headers": sorted(got_h)}
+
+
+def make_stubs():
+    import urllib.parse
+
+    def urlsplit_stub(I, url, scheme="", allow_fragments=True):
+        """urllib.parse.urlsplit is wrapped in functools.lru_cache (C, hashes its arguments):
+        the wrapped pure-Python function is interpreted instead"""
+        return I.call(urllib.parse.urlsplit.__wrapped__, (url, scheme, allow_fragments))
+
+    return {urllib.parse.urlsplit: urlsplit_stub}
+
+
 def obligations(tier, seed):
     import itertools
 
@@ -295,6 +421,15 @@ def obligations(tier, seed):
                 out.append({"name": f"dechunk[n={n},nl={nl!r},reads={reads}]", "body": "body_dechunk",
                             "params": {"n": n, "nl": nl, "reads": list(reads)},
                             "opts": {"budget_s": 900, "ctx": {"max_cp": 0x7F}}, "witness": n == 1 and reads == (2, 3)})
+    for skel, top in (("/{}", 3 if quick else 5), ("/a/{}", 3 if quick else 4), ("/%{}", 3 if quick else 4), ("http://h{}", 3 if quick else 4),
+                      ("/p?{}", 2 if quick else 4), ("/a;{}", 2 if quick else 3)):
+        for n in range(0, top + 1):
+            for hs, method in ((0, "GET"), (1, "POST")):
+                if hs == 1 and n > 2:
+                    continue
+                out.append({"name": f"make_environ[{skel},n={n},headers={hs},{method}]", "body": "body_make_environ",
+                            "params": {"n": n, "skel": skel, "method": method, "hs": hs, "sym_header": n == 0},
+                            "opts": {"budget_s": 900, "ctx": {"max_cp": 0x7E}}, "witness": n == 2 and skel == "/{}" and hs == 0})
     shapes = [(), (0,), (2,), (1, 2), (0, 1)] if quick else [()] + [t for k in (1, 2) for t in itertools.product(range(0, 3), repeat=k)]
     for method in ("GET", "HEAD"):
         for version in ("HTTP/1.0", "HTTP/1.1"):
